@@ -29,19 +29,14 @@ def run(ctx):
     if r.violated:
         ctx.spec_violation(r, "Capture.tla: %s violated" % r.violated)
         return
-    ctx.require_actions(r, ["ByRef", "Erase", "EraseEvent", "ToOwned", "ToShared", "IntoCtxt",
-                            "MoveThread", "ReadBack"], "Capture")
+    ctx.require_actions(r, ["ByRef", "Erase", "EraseEvent", "ToOwned", "ToShared", "IntoCtxt", "PushFrame",
+                            "MoveThread", "ReadBack", "Observe"], "Capture")
     cases = os.path.join(ctx.out, "cases.ndjson")
     n = vlib.extract_printed(r.out_path, "REPLAY", cases)
     st = list(vlib.iter_printed(r.out_path, "SITES"))
     if not st or n == 0:
         raise vlib.ToolError("TLC printed no cases / site table")
     sites = json.loads(st[0])
-    with open(cases, "a") as f:       # the zero-length paths
-        for s in sites:
-            f.write(json.dumps({"mode": s["mode"], "class": s["class"], "path": [],
-                                "promise": s["promise"]}) + "\n")
-    n += len(sites)
     rc = ctx.replay_case()
     if rc is not None and "case" in rc:
         with open(cases, "w") as f:
@@ -60,12 +55,14 @@ def run(ctx):
     ex = rep["extra"]
     ctx.cov["traces_validated_against_impl"] += ex["executions"]
     ctx.cov["evaluations"] = ex["executions"]
-    ctx.cov["distinct_nontrivial"] = n - len(sites) if rc is None else 1
+    ctx.cov["distinct_nontrivial"] = n if rc is None else 1
+    ctx.cov["spec_call_sites"] = len(sites)
     ctx.cov["rule"] = (
-        "every transformation path of length <= MaxSteps x every call site, enumerated by TLC; each "
-        "case executed once per Rust type of the class (one real macro call site per mode x type) with a "
-        "fresh pool value; evaluations = capture+path+read executions; distinct_nontrivial = distinct "
-        "(mode, class, non-empty path) cases")
+        "every call site (capture mode incl. attribute argument x type class x macro wrap) x every "
+        "transformation path of length <= MaxSteps x every read path of the final representation, enumerated "
+        "by TLC; each case executed once per Rust type of the class (one real macro call site per mode x type x "
+        "wrap): on EVERY pool extreme of the type for paths of length <= ExhaustUpTo, on a seeded draw otherwise; "
+        "evaluations = capture+path+read executions; distinct_nontrivial = distinct (site, path, reader) cases")
     ctx.cov["call_sites"] = ex["call_sites"]
     ctx.cov["call_sites_used"] = ex["call_sites_used"]
     ctx.cov["component_checks"] = rep["checks"]
@@ -75,8 +72,9 @@ def run(ctx):
         "the original value's own Display / Debug / serde_json / sval_json output is the reference",
         "derived serde and sval impls of the pool's struct / enum denote the same data model",
         "not decided (statement silent): Display/Debug text and error identity after owned / shared / context "
-        "buffering; formatting of primitives captured with `inspect: true`; whether as_debug of a str shows "
-        "its Debug or its own text; downcast fast paths",
+        "buffering (except: a number / boolean / string captured typed must show the same Display text on every "
+        "representation and read path); formatting of primitives and strings captured with `inspect: true`; "
+        "whether as_debug of a &str shows its Debug or its own text (a String shows Debug); downcast fast paths",
         "value-bag / sval / serde bridges are exercised, not modelled",
         "bounded: %s" % vlib.cfg_header(os.path.join(vlib.SPEC, cfg)),
     ]
